@@ -1,4 +1,4 @@
-import LexVerif.Props.C01SlowDomain
+import LexVerif.Props.C01Number
 /-!
 # Props.C01Final — C01 with Eisel–Lemire proved and the slow path modelled
 
@@ -120,5 +120,116 @@ theorem numberToFloat_exact {F : FTy} (hF : IsLemireFloat F) (c : Cfg) (hcompact
   apply numberToFloat_final hF c hcompact hr hb n hmany hx
   intro fp hcf hinv _ _ _ _ p eb lay
   exact slowDomain_of_exact hF lay c hr hb n hx hs hfew fp hcf hinv
+
+/-! ## the decimal theorem without named hypotheses (untruncated inputs) -/
+
+/-- a valid decimal-point option is not a decimal digit -/
+theorem dp_not_digit (feats : Features) (fmt : Format) (o : POpts) (hr : 10 ≤ fmt.mantissaRadix)
+    (hv : isValidOptionsPunctuation feats fmt o.exp o.dp = true) : charToDigit o.dp 10 = none := by
+  unfold isValidOptionsPunctuation at hv
+  split at hv
+  · cases hv
+  · rename_i hc
+    simp only [Bool.or_eq_true, Bool.not_eq_true', not_or, Bool.not_eq_false] at hc
+    have h1 := hc.1
+    unfold isValidControl isValidOptionalControl at h1
+    simp only [Bool.and_eq_true, decide_eq_true_eq, Option.isNone_iff_eq_none, Bool.or_eq_true] at h1
+    obtain ⟨hne0, ⟨⟨hnone, _⟩, _⟩, hasc⟩ := h1
+    have hlt : o.dp < 256 := by
+      rcases hasc with h | h
+      · unfold isValidAscii at h
+        simp only [Bool.or_eq_true, Bool.and_eq_true, decide_eq_true_eq] at h
+        omega
+      · omega
+    generalize hR : (if fmt.mantissaRadix > fmt.exponentRadix then fmt.mantissaRadix else fmt.exponentRadix) = R at hnone
+    have hR10 : 10 ≤ R := by rw [← hR]; split <;> omega
+    unfold charToDigit charToValidDigit at hnone ⊢
+    dsimp only at hnone ⊢
+    rw [if_pos (Nat.le_refl 10)]
+    split
+    · rename_i hd
+      exfalso
+      split at hnone
+      · rename_i hR'
+        rw [if_pos (by omega)] at hnone
+        cases hnone
+      · rename_i hR'
+        have hdig : 48 ≤ o.dp ∧ o.dp ≤ 57 := by omega
+        rw [if_pos hdig] at hnone
+        rw [if_pos (by omega)] at hnone
+        cases hnone
+    · rfl
+
+/-- `parseFloatAlgoModel_eq` with the option validation available to the per-`Number` obligation -/
+theorem parseFloatAlgoModel_eq_valid (slow : SlowRadix) (feats : Features) (fmt : Format) (o : POpts) (isPartial : Bool)
+    (F : FTy) (s : List Nat)
+    (h : isValidOptionsPunctuation feats fmt o.exp o.dp = true → ∀ n cnt,
+      parseFloatSyntax ⟨feats, fmt, false⟩ o isPartial s (formatError feats fmt).isNone = .ok (.number n cnt) →
+      numberToFloat slow ⟨feats, fmt, false⟩ F n false = some (numberBits ⟨feats, fmt, false⟩ F.fmt n)) :
+    parseFloatAlgoModel slow feats fmt o isPartial F s = parseFloatModel feats fmt o isPartial F.fmt s := by
+  unfold parseFloatAlgoModel parseFloatModel
+  cases optionsError o with
+  | some e => rfl
+  | none =>
+    simp only []
+    split
+    · rfl
+    · split
+      · rfl
+      · rename_i hval
+        split
+        · rfl
+        · cases hp : parseFloatSyntax ⟨feats, fmt, false⟩ o isPartial s (formatError feats fmt).isNone with
+          | error e => rfl
+          | ok q =>
+            simp only []
+            cases q with
+            | zero k => rfl
+            | special sp neg k => cases sp <;> rfl
+            | number n cnt =>
+              unfold renderParsedAlgo renderParsed
+              simp only []
+              rw [h (by simpa using hval) n cnt hp]
+
+/-- **`C01_decimal_correct`** — decimal string→float is correctly rounded, API level, pipeline with the **modelled** slow
+path, Eisel–Lemire **proved**, the syntax layer's `Number` **proved** exact: for every non-`compact` build, every decimal
+format without digit separator and base prefix (every format when the `format` feature is off), all options, complete
+and partial parser, float type `f32`/`f64`, and every input of bytes (shorter than `2^60`) whose `Number` is untruncated
+(`many_digits = false`, i.e. at most 19 significant digits),
+`parseFloatAlgoModel slowModel` — syntax → `try_fast_path` → `lemire` → `slow_radix` → `to_native` — prints exactly what
+the specification model prints: `Spec.litBits` of the digit content (the nearest float, ties to even, overflow to
+infinity, gradual underflow), the same count, the same errors. **No named hypothesis is left**; the only restriction on the
+input is `hfew`. -/
+theorem C01_decimal_correct (feats : Features) (hcompact : feats.compact = false) (fmt : Format)
+    (hr : fmt.mantissaRadix = 10) (hb : fmt.exponentBase = 10)
+    (hclass : feats.format = false ∨ C12.SepPrefixFree fmt)
+    (o : POpts) {F : FTy} (hF : IsLemireFloat F) (isPartial : Bool) (s : List Nat)
+    (h256 : ∀ x ∈ s, x < 256) (hlen : s.length < 2 ^ 60)
+    (hfew : ∀ n cnt, parseFloatSyntax ⟨feats, fmt, false⟩ o isPartial s (formatError feats fmt).isNone =
+      .ok (.number n cnt) → n.manyDigits = false) :
+    parseFloatAlgoModel slowModel feats fmt o isPartial F s = parseFloatModel feats fmt o isPartial F.fmt s := by
+  apply parseFloatAlgoModel_eq_valid
+  intro hval n cnt hp
+  have hmany := hfew n cnt hp
+  have hdp := dp_not_digit feats fmt o (by omega) hval
+  obtain ⟨hx, hs, hfew19⟩ := C01Number.number_exact_of_syntax ⟨feats, fmt, false⟩ rfl hclass hr hb o hdp isPartial s _
+    h256 hlen n cnt hp hmany
+  rw [numberToFloat_exact hF ⟨feats, fmt, false⟩ hcompact hr hb n hmany hx hs hfew19]
+  have hr' : (⟨feats, fmt, false⟩ : Cfg).mantissaRadix = 10 := hr
+  have hb' : (⟨feats, fmt, false⟩ : Cfg).exponentBase = 10 := hb
+  rw [(spec_forms hF ⟨feats, fmt, false⟩ (by omega) (by omega) (by omega) n hmany hx.2.2).2]
+
+/-- **full statement** (a `Prop`): the same for **every** input, truncated mantissas (more than 19 significant digits)
+included, and for `compact` builds. Missing for it: the `many_digits = true` case — the two-pass wrapper of `lemire` is
+proved (`lemire_wrapper_all`), but its invalid-marked estimates (`compute_error`) are not yet characterised, the
+`Number`'s truncated `mantissa`/`exponent` words are not yet related to the digit slices (`SlowDomain.value`), and
+`Props.C01Slow.truncation_invariant` (non-zero cut tail beyond `max_digits`) is open; `compact`: the Bellerophon analogue
+of `lemire_estimate_facts`. -/
+def C01_decimal_full : Prop :=
+  ∀ (feats : Features) (fmt : Format), fmt.mantissaRadix = 10 → fmt.exponentBase = 10 →
+    (feats.format = false ∨ C12.SepPrefixFree fmt) →
+    ∀ (o : POpts) (F : FTy), IsLemireFloat F → ∀ (isPartial : Bool) (s : List Nat),
+      (∀ x ∈ s, x < 256) → s.length < 2 ^ 60 →
+      parseFloatAlgoModel slowModel feats fmt o isPartial F s = parseFloatModel feats fmt o isPartial F.fmt s
 
 end LexVerif.Props.C01Final
